@@ -92,7 +92,9 @@ TServed == More /\ Ev.k = "served" /\ Ev.err = "nil" /\ ServeReturn /\ l' = l + 
 
 \* end of a schedule, after everything was released: every Close call has
 \* returned and Serve has returned nil (observed by the harness)
-TFinal == More /\ Ev.k = "final" /\ Ev.allret /\ Ev.served /\ l' = l + 1 /\ UNCHANGED <<svars, st>>
+\* ... and what every connection received, with Close calls going on around its commands, is a sequence of whole,
+\* well-formed backend messages (the writer of a connection is used by its own goroutine only)
+TFinal == More /\ Ev.k = "final" /\ Ev.allret /\ Ev.served /\ Ev.wire /\ l' = l + 1 /\ UNCHANGED <<svars, st>>
 
 \* no action for: panic, stuck, served with an error, an arrival at a point
 \* the model does not expect
